@@ -41,6 +41,13 @@ def check_sid_injective(literals):
             if seen.setdefault(h, pre) != pre: return 'collision %r vs %r' % (seen[h], pre)
     return True
 
+PARTIAL = [False]
+def out_root():
+    """evidence/ and replay/ go to /verif only for FULL runs on /repo; scratch-worktree runs (VP_REPO: mutation experiments) and partial runs
+    (--only: development) write under $TMPDIR, so a committed evidence file is always the record of a complete run of the registered command"""
+    if REPO == '/repo' and not PARTIAL[0]: return VERIF
+    return os.path.join(tempfile.gettempdir(), 'vp_out_' + re.sub(r'\W', '_', REPO) + ('_partial' if PARTIAL[0] else ''))
+
 def log(*a):
     sys.stderr.write(' '.join(str(x) for x in a) + '\n'); sys.stderr.flush()
 
@@ -316,7 +323,7 @@ def main():
     if tier == '--replay':
         return replay_file(pid, args[2])
     only = None; keep = False; jobs = None
-    if '--only' in args: only = args[args.index('--only') + 1].split(',')
+    if '--only' in args: only = args[args.index('--only') + 1].split(','); PARTIAL[0] = True
     if '--keep' in args: keep = True
     if '--jobs' in args: jobs = int(args[args.index('--jobs') + 1])
     if tier not in ('quick', 'thorough'): raise SystemExit('tier must be quick|thorough')
@@ -407,7 +414,7 @@ def check(pid, tier, seed, spec, known, fixed, work, only, jobs, t_start):
     # violations: trace + native replay
     out_lines = []; violations = 0; inconclusive = [('build', e) for e in build_errors]; kf_seen = set()
     # scratch-worktree runs (VP_REPO set: mutation experiments) never touch /verif/replay or /verif/evidence
-    OUT = VERIF if REPO == '/repo' else os.path.join(tempfile.gettempdir(), 'vp_out_' + re.sub(r'\W', '_', REPO))
+    OUT = out_root()
     rdir = os.path.join(OUT, 'replay', pid); os.makedirs(rdir, exist_ok=True)
     for grp, inst, r in results:
         kf = inst.get('known_finding')
@@ -491,7 +498,7 @@ def write_evidence(pid, tier, seed, spec, built, results, violations, inconclusi
                   exhaustive=False),
               assumptions=spec.get('assumptions', []) + ['environment models listed under coverage.models_used', 'C++ exceptions and allocation failure are out of scope (opt -lowerinvoke, --no-malloc-may-fail)',
                                                          'build flags source: ' + (built[0].flag_source if built else 'n/a')])
-    OUT = VERIF if REPO == '/repo' else os.path.join(tempfile.gettempdir(), 'vp_out_' + re.sub(r'\W', '_', REPO))
+    OUT = out_root()
     os.makedirs(os.path.join(OUT, 'evidence'), exist_ok=True)
     json.dump(ev, open(os.path.join(OUT, 'evidence', pid + '.json'), 'w'), indent=1)
 
